@@ -577,13 +577,17 @@ theorem normalize_unit (sqrt : K → K) (hsq : ∀ v : K, 0 ≤ v → sqrt v * s
 
 /-! uniform emitter -/
 
+theorem directLight_nil (scene : Ray K → Option (Hit K × Mat K σ)) (sqrt : K → K) (eps : K)
+    (point normal dest : V3 K) (m : Mat K σ) (color : V3 K) :
+    directLight scene sqrt eps [] point normal dest m color = color := rfl
+
 theorem recurse_uniform_emitter (scene : Ray K → Option (Hit K × Mat K σ)) (sqrt abs : K → K)
     (cutoff eps : K) (E : V3 K)
     (hclosed : ∀ r, ∃ c m, scene r = some (c, m) ∧ m.emission = E ∧ m.ambient = V3.zero ∧
       ∀ n s d, m.bsdf n s d = V3.zero)
     (fuel : Nat) (first : Bool) (g : σ) (ray : Ray K) (scale : V3 K)
     (hcut : ¬ (scale.x + scale.y + scale.z) / 3 < cutoff) :
-    (recurse scene sqrt abs cutoff eps fuel first g ray scale).1 = E := by
+    (recurse scene sqrt abs cutoff eps [] fuel first g ray scale).1 = E := by
   obtain ⟨c, m, hs, hE, hA, hB⟩ := hclosed ray
   have hcol : (if first then m.emission.add m.ambient else m.emission) = E := by
     split
@@ -592,12 +596,53 @@ theorem recurse_uniform_emitter (scene : Ray K → Option (Hit K × Mat K σ)) (
   cases fuel with
   | zero =>
     unfold recurse
-    simp only [hcut, if_false, hs, hcol]
+    simp only [hcut, if_false, hs, hcol, directLight_nil]
   | succ fuel =>
     unfold recurse
-    simp only [hcut, if_false, hs, hcol, hB]
+    simp only [hcut, if_false, hs, hcol, hB, directLight_nil]
     ext <;> simp [V3.add, V3.mul, V3.scale, V3.zero]
 
+theorem foldl_congr_mem {α β : Type} (l : List α) (f g : β → α → β) (b : β)
+    (h : ∀ a ∈ l, ∀ b, f b a = g b a) : l.foldl f b = l.foldl g b := by
+  induction l generalizing b with
+  | nil => rfl
+  | cons a l ih =>
+    simp only [List.foldl_cons]
+    rw [h a (by simp) b]
+    exact ih _ (fun a' ha' => h a' (by simp [ha']))
+
+/-- With `MaxDepth = 0`, a constant (matte) BSDF and no light in shadow, the ray tracer's sample
+is the ray caster's pixel. -/
+theorem recurse_lit_matte (scene : Ray K → Option (Hit K × Mat K σ)) (sqrt abs : K → K)
+    (cutoff eps : K) (hcut : cutoff ≤ 1) (lights : List (PointLight K)) (ray : Ray K) (g : σ)
+    (c : Hit K) (m : Mat K σ) (hs : scene ray = some (c, m)) (rho : V3 K)
+    (hm : ∀ n s d, m.bsdf n s d = rho)
+    (hshadow : ∀ l ∈ lights,
+      let point := ray.origin.add (ray.dir.scale c.scale)
+      let ld := l.origin.sub point
+      match scene ⟨point.add ((ld.normalize sqrt).scale eps), ld⟩ with
+      | some (sc, _) => ¬ sc.scale < 1
+      | none => True) :
+    (recurse scene sqrt abs cutoff eps lights 0 true g ray ⟨1, 1, 1⟩).1
+      = rayCasterPixel scene sqrt lights ray := by
+  have h1 : ¬ ((1 : K) + 1 + 1) / 3 < cutoff := by
+    have : ((1 : K) + 1 + 1) / 3 = 1 := by norm_num
+    rw [this]; exact not_lt.mpr hcut
+  unfold recurse rayCasterPixel
+  simp only [h1, if_false, hs, if_true, directLight]
+  have hcomm : m.emission.add m.ambient = m.ambient.add m.emission := by
+    ext <;> simp [V3.add] <;> ring
+  rw [hcomm]
+  apply foldl_congr_mem
+  intro l hl b
+  have := hshadow l hl
+  simp only [hm]
+  simp only [] at this
+  split
+  · rename_i sc _ heq
+    rw [heq] at this
+    simp only [this, if_false]
+  · rfl
 
 /-! ### early stop, image assembly -/
 
